@@ -164,7 +164,8 @@ func RunDaemon() {
 			ui.Info("Received SIGTERM signal, exiting...")
 			return nil
 		}, func(err error) {
-			defer close(sig)
+			// sig stays registered with signal.Notify: closing it would make the next
+			// SIGTERM/SIGINT panic the runtime while the fans are still being restored
 			cancel()
 		})
 	}
